@@ -389,8 +389,9 @@ def rule_behaviour(ctx: Ctx):
         ok = w == {(): Fraction(1)}
         ctx.check(ok, "BEH-1", dis, rets[0], "exploration mixture weights sum to 1", "", f"mixture weights `{norm(rets[0].value)}` do not sum to 1")
         # weight of the uniform component is the exploration rate, as in the sampler
-        rd = Snips(dis).find(f"rand_dist = DictDistribution.uniform({dis.positional_params[0]}.keys())")
-        ok = isinstance(l, ast.BinOp) and ast.unparse(l.right) == dis.positional_params[1] and bool(rd) and ast.unparse(l.left) == rd[0][1]["rand_dist"]
+        av_, rc_ = dis.positional_params[:2]
+        SDm = Snips(dis)
+        ok = SDm.solve([f"rand_dist = DictDistribution.uniform({av_}.keys())", f"return rand_dist * {rc_} | E_other * (1 - {rc_})"]) is not None
         ctx.check(ok, "BEH-1", dis, rets[0], "uniform component weighted by rand_choose", "", "exploration weight is attached to the wrong component")
     else:
         ctx.unknown("BEH-1", dis, dis.node, "exploration mixture", "mixture expression not found")
